@@ -174,6 +174,9 @@ def main():
                 rng = np.random.default_rng([a.seed, pnum, idx])
                 spec = mod.gen_case(rng, idx, a.tier)
             _FIRED[0] = 0
+            cmod = sys.modules.get('rv.contracts')
+            if cmod is not None:
+                cmod.LAST_BROKEN.clear()
             signal.alarm(case_timeout)
             try:
                 res = mod.run_case(spec, ctx)
@@ -181,6 +184,18 @@ def main():
                 signal.alarm(0)
             if res is None:
                 res = {'status': 'skip', 'reason': 'no result'}
+            cmod = sys.modules.get('rv.contracts')
+            if cmod is not None and cmod.LAST_BROKEN and res.get('status') != 'violation':
+                # a post-condition on one of RSOME's helpers failed somewhere inside the case and
+                # the exception was absorbed on the way (by RSOME or by a monitor that treats a
+                # raising operation as a refusal): the broken contract is the finding
+                names = sorted(set(cmod.LAST_BROKEN))
+                res = {'status': 'violation', 'mechanism': 'contract:' + '+'.join(names),
+                       'detail': {'what': 'post-condition of %s failed during the case' % names,
+                                  'times': len(cmod.LAST_BROKEN),
+                                  'case_result_otherwise': res.get('status')},
+                       'sig': 'contract', 'nontrivial': True,
+                       'features': res.get('features')}
         except CaseTimeout:
             res = {'status': 'error', 'error': 'case watchdog (%ds)' % case_timeout}
         except Exception as e:
